@@ -44,9 +44,11 @@ def closures_of(ctx, funcs):
                 continue
             if callee.startswith('<') and (' as std::' in callee or ' as core::' in callee):
                 continue      # derived / std trait impls on crate types (Clone, PartialEq, Default ...)
-            if callee.startswith('screen::') or callee.startswith('<screen::') or (callee.startswith('<') and ' as screen::' in callee):
-                # (the last form: a private trait of the screen module implemented for a std type,
-                # e.g. `impl RowMap for HashMap<u32, CharOpts>`)
+            # any other crate-local function is a helper of the method that calls it, whichever module it
+            # lives in (`screen_util::fill_cells`, a private trait implemented for a std type such as
+            # `impl RowMap for HashMap<u32, CharOpts>`); the parser side is never called from the screen
+            owner = callee[1:].split(' as ')[0].lstrip('&').replace('mut ', '') if callee.startswith('<') else callee
+            if not owner.startswith(('parser::', 'byte_parser::', 'parser_listener::')):
                 out.add(callee)
                 work.append(callee)
     return out
